@@ -776,7 +776,7 @@ func genHistory(g *vf.Rng, o histOpts) (calls []hcall, base string, dist map[str
 				h.add(hcall{Op: "label", S: l})
 				h.pad(p)
 				h.branch(l)
-				h.dist[fmt.Sprintf("back%d", -(p + 2))] = true
+				h.dist[fmt.Sprintf("back%d", -(p+2))] = true
 			case 1: // forward branch with chosen distance
 				p := []int{0, 1, 126, 127, 128, g.Intn(140)}[g.Intn(6)]
 				l := h.newLabel()
